@@ -136,9 +136,15 @@ def run(ctx):
     ctx.rule("C13.3", "RecordType Display and FromStr tables are mutually inverse; TYPE<n> both ways")
     ctx.rule("C13.4", "every RDATA variant the writer prints has a parser arm with the same number, order and kinds of fields")
     ctx.rule("C13.5", "$ORIGIN / relative-name conditions agree between header, owner names and RDATA names; ztoz = deserialise then serialise")
+    ctx.rule("C13.6", "apex agreement: the reader builds the zone at the SOA record's owner, or the default root zone without a SOA - what the writer's `$ORIGIN` / absolute-name conditions assume (C11.4, decided here as well)")
     ctx.decline("zone == parse(print(zone)) for every zone; a label that is exactly `@` or starts with `*` is re-read as the apex / a wildcard (specials resolved after un-escaping: no escape-set rule can see it)")
 
     wt, tt = escape_rules(ctx, "C13.1")
+    # the reader gives a file the apex the writer assumed: the SOA owner with a SOA, the root (default zone) without (C11.4)
+    from ..core import RuleAlias
+    if not isinstance(ctx, RuleAlias):
+        from . import C11
+        C11.run(RuleAlias(ctx, {"C11.4": "C13.6"}))
     so = prog.fn(ZS + "serialise_octets")
     sor = A.Resolver(so)
     soc = A.Conds(so, sor)
